@@ -66,6 +66,95 @@ theorem normBC_of_WF (bc : BC) (h : WFBC bc) : normBC bc = bc := by
 theorem load_of_WF (H : Host) (bc : BC) (h : WFBC bc) : load H bc = loadRaw H bc := by
   unfold load; rw [normBC_of_WF bc h]
 
+/-! ### the plain loader does not see `norm` either (unique map keys) -/
+
+theorem keys_normKVs' (kvs : List (Bytes × Obj)) : keys (normKVs kvs) = keys kvs := by
+  induction kvs with
+  | nil => rfl
+  | cons kv rest ih => obtain ⟨k, v⟩ := kv; simp only [normKVs, keys, List.map_cons] at ih ⊢; rw [ih]
+
+mutual
+/-- map keys are unique, recursively (the value is a tree of Go maps); nothing is required of
+    compiled functions: negative counts, a non-empty `Free`, repeated source-map keys are allowed -/
+def KeysOK : Obj → Prop
+  | .array xs => KeysOKL xs
+  | .map kvs => (keys kvs).Nodup ∧ KeysOKKV kvs
+  | _ => True
+def KeysOKL : List Obj → Prop
+  | [] => True
+  | x :: xs => KeysOK x ∧ KeysOKL xs
+def KeysOKKV : List (Bytes × Obj) → Prop
+  | [] => True
+  | (_, v) :: rest => KeysOK v ∧ KeysOKKV rest
+end
+
+/-- the identity of an opaque host object does not depend on how its contents are written down -/
+def HostNorm (H : Host) : Prop := ∀ o, H.objId (norm o) = H.objId o
+
+mutual
+theorem loadObj_norm (H : Host) (hH : HostNorm H) : ∀ (o : Obj) (l : L), KeysOK o → loadObj H (norm o) l = loadObj H o l
+  | .array xs, l, h => by
+    simp only [norm, loadObj]
+    rw [loadList_norm H hH xs l (by simpa [KeysOK] using h)]
+  | .map kvs, l, h => by
+    simp only [KeysOK] at h
+    simp only [norm, loadObj]
+    rw [mapOfList_of_nodup (normKVs kvs) (by rw [keys_normKVs']; exact h.1), loadKVs_norm H hH kvs l h.2]
+  | .syncMap true kvs, l, _ => by
+    have := hH (.syncMap true kvs)
+    simp only [norm] at this
+    simp only [norm, loadObj, this]
+  | .syncMap false kvs, l, _ => by
+    have := hH (.syncMap false kvs)
+    simp only [norm] at this
+    simp only [norm, loadObj, this]
+  | .compiledFunction f, l, _ => by simp only [norm, loadObj, allocCF, codeOfCF_normCF]
+  | .nil, _, _ => rfl
+  | .undefined, _, _ => rfl
+  | .bool _, _, _ => rfl
+  | .int _, _, _ => rfl
+  | .uint _, _, _ => rfl
+  | .char _, _, _ => rfl
+  | .float _, _, _ => rfl
+  | .str _, _, _ => rfl
+  | .bytes _, _, _ => rfl
+  | .function _, _, _ => rfl
+  | .builtinFunction _, _, _ => rfl
+  | .gob _ _, _, _ => rfl
+theorem loadList_norm (H : Host) (hH : HostNorm H) : ∀ (xs : List Obj) (l : L), KeysOKL xs →
+    loadList H (normList xs) l = loadList H xs l
+  | [], _, _ => rfl
+  | x :: xs, l, h => by
+    simp only [KeysOKL] at h
+    simp only [normList, loadList]
+    rw [loadObj_norm H hH x l h.1, loadList_norm H hH xs _ h.2]
+theorem loadKVs_norm (H : Host) (hH : HostNorm H) : ∀ (kvs : List (Bytes × Obj)) (l : L), KeysOKKV kvs →
+    loadKVs H (normKVs kvs) l = loadKVs H kvs l
+  | [], _, _ => rfl
+  | (k, v) :: kvs, l, h => by
+    simp only [KeysOKKV] at h
+    simp only [normKVs, loadKVs]
+    rw [loadObj_norm H hH v l h.1, loadKVs_norm H hH kvs _ h.2]
+end
+
+/-- `loadRaw` itself is blind to `norm` on bytecode whose maps are Go maps: what `norm` changes
+    besides collapsing repeated keys — non-positive counts, the `Free` list, the source maps —
+    is not part of the VM state -/
+theorem loadRaw_norm (H : Host) (hH : HostNorm H) (bc : BC) (h : ∀ cs, bc.constants = some cs → KeysOKL cs) :
+    loadRaw H (normBC bc) = loadRaw H bc := by
+  obtain ⟨fs, mn, cs, nm⟩ := bc
+  have hnm : (if 0 < nm.toInt then nm else 0).toInt.toNat = nm.toInt.toNat := by
+    split
+    · rfl
+    · simp; omega
+  unfold loadRaw normBC
+  simp only [hnm]
+  cases cs with
+  | none => cases mn <;> simp [allocCF, codeOfCF_normCF]
+  | some cs =>
+    have hl := fun l => loadList_norm H hH cs l (h cs rfl)
+    cases mn <;> simp [hl, allocCF, codeOfCF_normCF]
+
 /-! ### `fixObjects` without module constants -/
 
 /-- a constant that `fixObjects` leaves alone: not a map holding the `__module_name__` key
